@@ -495,6 +495,10 @@ bool DOMLSSerializerImpl::write(const DOMNode* nodeToWrite,
     fLineFeedInTextNodePrinted = false;
     fLastWhiteSpaceInTextNode = 0;
 
+    // an earlier write() that was aborted inside an element has left its
+    // namespace scopes behind
+    fNamespaceStack->removeAllElements();
+
     try
     {
         fFormatter = new (fMemoryManager) XMLFormatter( fEncodingUsed
